@@ -93,7 +93,7 @@ def _gen_history(rng, tt, n, malformed):
 
 def generate(rng, tier):
     thorough = tier == "thorough"
-    n = 6000 if thorough else 1200
+    n = 30000 if thorough else 1200
     for k in range(n):
         malformed = k % 10 == 9
         r = rng.random()
